@@ -1970,6 +1970,14 @@ func (c *Cache) additionalAnswer(ctx context.Context, msg *dns.Msg) *dns.Msg {
 			middleware.MarkRequestLocalFailureResponse(ctx, out, err)
 			return out
 		}
+		// AD vouches for the whole reply, and from here on the reply says
+		// "the alias, and whatever this hop found at its target". A hop that
+		// was not authenticated takes the alias's AD with it even when it
+		// brings no record to merge: an empty NOERROR from an unsigned zone
+		// must not reach the client as an authenticated "no such data".
+		if msg.AuthenticatedData && (err != nil || respCname == nil || !respCname.AuthenticatedData) {
+			msg.AuthenticatedData = false
+		}
 		if err == nil && (len(respCname.Answer) > 0 || len(respCname.Ns) > 0) {
 			target, child = searchAdditionalAnswer(msg, respCname)
 			// The sub-query's records are now part of the outer answer, so
